@@ -7,7 +7,7 @@ import structure
 import tracegen
 
 AST_MODULES = ["targets_dast", "targets_vast"]
-MODULES = ["targets_leaves", "targets_comb", "targets_bisect", "targets_misc", "targets_dist", "targets_params", "targets_planar", "targets_bnaf", "targets_arrcomb", "targets_flows", "targets_masks", "targets_wrappers"]
+MODULES = ["targets_leaves", "targets_comb", "targets_bisect", "targets_misc", "targets_dist", "targets_params", "targets_planar", "targets_bnaf", "targets_arrcomb", "targets_flows", "targets_masks", "targets_wrappers", "targets_triangular"]
 
 def main(repo="/repo", outdir=None):
     here = os.path.dirname(os.path.abspath(__file__))
@@ -55,6 +55,22 @@ def main(repo="/repo", outdir=None):
     import py2ctor
     importlib.reload(py2ctor)
     for name, res in py2ctor.generate(repo).items():  # constructors / argument checks as exception-valued functions (C13)
+        path = os.path.join(outdir, name + ".lean")
+        old = open(path).read() if os.path.exists(path) else None
+        if old != res["text"]:
+            open(path, "w").write(res["text"])
+        report[name] = {"errors": res["errors"], "changed": old != res["text"], "targets": res["targets"]}
+    import py2wrap
+    importlib.reload(py2wrap)
+    for name, res in py2wrap.generate(repo).items():  # the argument-checking wrapper as a whole + __init_subclass__ (C13)
+        path = os.path.join(outdir, name + ".lean")
+        old = open(path).read() if os.path.exists(path) else None
+        if old != res["text"]:
+            open(path, "w").write(res["text"])
+        report[name] = {"errors": res["errors"], "changed": old != res["text"], "targets": res["targets"]}
+    import py2perm
+    importlib.reload(py2perm)
+    for name, res in py2perm.generate(repo).items():  # Permute: exception-valued __init__ and the four methods (C01 / C07 / C11)
         path = os.path.join(outdir, name + ".lean")
         old = open(path).read() if os.path.exists(path) else None
         if old != res["text"]:
